@@ -106,6 +106,7 @@ class Env:
         self.spec = spec
         self.q = SymQ(it)
         self.mon = LoopMonitor(self.q, SymRef(it, spec))
+        self.mon.absorbing = any(m.get('absb') for m in spec.maps)
         self.Qk = []
         self.Qt = []
         self.nkey = 0
@@ -119,12 +120,15 @@ class Env:
         self.ncalls = 0
         self.fault_done = False
         self.sleeps = 0
+        self.native_cons = []
+        self.lates = []
 
     # ---- clock
     def now(self, it):
         c = z3.Int('t%d' % self.nclock)
         self.nclock += 1
         it.assume(c >= self.t)
+        self.native_cons.append(c <= self.t + 2)       # preference for replays: time passes only inside poll
         self.t = c
         self.mon.on_now(c)
         self.script.append(['now'])
@@ -156,6 +160,8 @@ class Env:
     # ---- driver calls
     def call(self, it, m, a):
         self.ncalls += 1
+        if self.mon.fault is not None:
+            raise Violation('C20', 'the loop kept running (called %s) after a driver call had failed' % m, {'fault': self.mon.fault})
         if self.spec.faults and not self.fault_done and not self.mon.done:
             if it.choose(2) == 1:
                 self.fault_done = True
@@ -223,7 +229,9 @@ class Env:
                 extra = z3.Int('late%d' % self.npoll)
                 it.assume(extra >= 0)
                 self.t = self.t + timeout + extra
-            self.script.append(['poll', 'timeout', genuine])
+                self.native_cons.append(extra <= 400)
+                self.lates.append(extra)
+            self.script.append(['poll', 'timeout', genuine, extra if genuine else 0])
             self.mon.on_poll_return('timeout', genuine)
             return ok(Adt('PollResult', 'TimedOut', []))
         if o[0] == 'intr':
@@ -338,17 +346,30 @@ def concretise_script(spec, env, it):
     sat, model = it.keys.solve(syms)
     if not sat:
         return None
-    m = it.model() if it.solver is not None else None
+    m = None
+    consistent = False
+    if it.solver is not None:
+        # replay-friendly model: small delays, time passing only inside poll; fall back to any model
+        pref = list(env.native_cons)
+        for o in spec.opaques():
+            pref.append(z3.And(o.term >= 20, o.term <= 250))
+        m = it.model(*pref)
+        if m is None:
+            m = it.model(*(list(env.native_cons) + [z3.And(o.term >= 0, o.term <= 250) for o in spec.opaques()]))
+        consistent = m is not None
+        if m is None:
+            m = it.model()
     vals = {}
     for o in spec.opaques():
         v = None
         if m is not None:
             v = m.eval(o.term, model_completion=True).as_long()
         vals[o.name] = v if v is not None else 0
-    # keep native replays short: small positive delays that preserve the path's arithmetic shape
-    for i, o in enumerate(spec.opaques()):
-        if vals[o.name] > 400 or vals[o.name] < 5:
-            vals[o.name] = 60 + 25 * i
+    if not consistent:
+        # keep native replays short: small positive delays
+        for i, o in enumerate(spec.opaques()):
+            if vals[o.name] > 400 or vals[o.name] < 5:
+                vals[o.name] = 60 + 25 * i
 
     def kc(k):
         return k if isinstance(k, int) else model[k]
@@ -369,6 +390,11 @@ def concretise_script(spec, env, it):
         s = list(s)
         if s[0] == 'next_keyboard' and s[1] == 'one':
             s[2] = ['P' if s[2][0] == 'Pressed' else 'R', kc(s[2][1])]
+        if s[0] == 'poll' and s[1] == 'timeout':
+            ex = s[3]
+            if z3.is_expr(ex):
+                ex = m.eval(ex, model_completion=True).as_long() if (m is not None and consistent) else 25
+            s[3] = int(min(max(ex, 0), 400)) + 12
         script.append(s)
     return lay, script
 
@@ -501,10 +527,13 @@ class NativeRef:
 def judge_native_log(native, lay, res):
     """run the same LoopMonitor over the native call log. returns None | (prop, what, ctx)"""
     mon = LoopMonitor(ConcQ(), NativeRef(native, lay))
+    mon.absorbing = any(m.get('absorbing') for m in lay)
     try:
         for e in res['log']:
             call = e['call']
             t = e['t_ms']
+            if mon.fault is not None:
+                raise Violation('C20', 'the loop kept running (called %s) after a driver call had failed' % call, {'fault': mon.fault})
             if e.get('diverged'):
                 # the real loop made a call the symbolic path did not predict: judge the call itself
                 if call == 'send':
